@@ -48,9 +48,9 @@ theorem parseLoop_char (fuel : Nat) (ws : Str) (c : Ch) (r : Str) (pos : Nat) (p
           if !has expected LParen then .error (.math (pos + ws.length + 1))
           else parseLoop fuel r (pos + ws.length + 1) (prio + 10) (Primary + LParen + Sign + NullaryCall) acc
         else if c == 41 then
-          if has expected NullaryCall then parseLoop fuel r (pos + ws.length + 1) (prio - 10) (Operator + RParen + LParen) ({ type := .null } :: acc)
+          if has expected NullaryCall then parseLoop fuel r (pos + ws.length + 1) (prio - 10) (Operator + RParen) ({ type := .null } :: acc)
           else if !has expected RParen then .error (.math (pos + ws.length + 1))
-          else parseLoop fuel r (pos + ws.length + 1) (prio - 10) (Operator + RParen + LParen) acc
+          else parseLoop fuel r (pos + ws.length + 1) (prio - 10) (Operator + RParen) acc
         else .error (.math (pos + ws.length))) := by
   have hsp : spanP isWhiteSpace (ws ++ c :: r) = (ws, c :: r) :=
     spanP_append _ _ _ hws (by intro c' r' h; cases h; exact hcw)
@@ -176,7 +176,7 @@ def Sx.ntok : Sx → Nat
 
 def Sx.expAfter : Sx → Nat
   | .num _ _ _ => Operator + RParen
-  | .paren _ _ _ => Operator + RParen + LParen
+  | .paren _ _ _ => Operator + RParen
   | .neg _ e => e.expAfter
   | .pos _ e => e.expAfter
   | .bin _ _ _ r => r.expAfter
@@ -184,7 +184,7 @@ def Sx.expAfter : Sx → Nat
 theorem Sx.expAfter_cases (s : Sx) : s.expAfter = 10 ∨ s.expAfter = 14 := by
   induction s with
   | num => left; rfl
-  | paren => right; rfl
+  | paren => left; rfl
   | neg _ _ ih => exact ih
   | pos _ _ ih => exact ih
   | bin _ _ _ _ _ ih => exact ih
